@@ -179,10 +179,25 @@ def run_inprocess_(argv, answers):
         # for it must be printable there -- writing anything else raises UnicodeEncodeError, as it would for real
         raw = io.BytesIO()
         fout = io.TextIOWrapper(raw, encoding="ascii", errors="strict", newline="", write_through=True)
+    enc, unencodable = "ascii", False
+    if raw is None:
+        # a command line with non-ASCII characters on a terminal whose encoding cannot show all of them (one in three;
+        # a Latin-1 / cp1252 / ASCII terminal): finding F11 on the unchanged tree, keyed by this mechanism in judge()
+        import zlib
+        h = zlib.crc32(repr((list(argv), list(answers), "enc")).encode("utf-8", "replace"))
+        if h % 3 == 0:
+            enc = ("ascii", "latin-1", "cp1252")[(h // 3) % 3]
+            try:
+                "".join(list(argv) + list(answers)).encode(enc)
+            except UnicodeEncodeError:
+                unencodable = True
+            if unencodable:
+                raw = io.BytesIO()
+                fout = io.TextIOWrapper(raw, encoding=enc, errors="strict", newline="", write_through=True)
     old = sys.argv, sys.stdin, sys.stdout, sys.stderr
     sys.argv = ["cvss_calculator"] + list(argv)
     sys.stdin, sys.stdout, sys.stderr = fin, fout, ferr
-    r = {"exit": 0, "exc": None}
+    r = {"exit": 0, "exc": None, "stdout_cannot_encode_the_command_line": enc if unencodable else None}
     try:
         try:
             L.calculator.main()
@@ -192,7 +207,7 @@ def run_inprocess_(argv, answers):
             r["exc"] = type(e).__name__ + ": " + str(e)[:200]
     finally:
         sys.argv, sys.stdin, sys.stdout, sys.stderr = old
-    r["out"], r["err"] = (raw.getvalue().decode("ascii") if raw is not None else fout.getvalue()), ferr.getvalue()
+    r["out"], r["err"] = (raw.getvalue().decode(enc, "replace") if raw is not None else fout.getvalue()), ferr.getvalue()
     return r
 
 
@@ -358,6 +373,10 @@ def judge(P, argv, answers, r, mode):
         P.notes.append("INCONCLUSIVE:CLI subprocess watchdog fired")
         return
     if r["exc"]:
+        if r.get("stdout_cannot_encode_the_command_line") and r["exc"].startswith("UnicodeEncodeError"):
+            P.violation("clean-exit", "C17:command-line-with-characters-the-terminal-cannot-encode:UnicodeEncodeError",
+                        dict(case, stdout_encoding=r["stdout_cannot_encode_the_command_line"]), error=r["exc"])
+            return
         P.violation("clean-exit", "C17:exception-escapes-main:%s" % r["exc"].split(":")[0], case, error=r["exc"])
         return
     if r["exit"] != 0:
